@@ -13,7 +13,8 @@
    loaded value and comparing with the implementation's verdicts (tools/gv/props/c01.py); that is what ties Spec
    and SEval to the Rust code. *)
 From GV.Model Require Import SEval PEval Spec CheckSpec.
-From GV.Proofs Require Import StatusProps ClauseProps RefineOps RefineProps RefineFile RefineExample.
+From GV.Proofs Require Import StatusProps ClauseProps RefineOps RefineProps RefineFile RefineExample TableProps.
+From GV.Generated Require Import EvalTables.
 
 Definition C01_full_statement : Prop :=
   forall re conv prog doc fuel sfuel,
@@ -172,3 +173,11 @@ Theorem C01_refinement_instance :
   exists recs s', eval_file re_ex conv_ex ex_prog 60 ex_doc = Done (PASS, recs, s').
 Proof. exact (conj ex_doc_ok (conj ex_nc (conj ex_spec ex_impl))). Qed.
 Print Assumptions C01_refinement_instance.
+
+(* the operator enumeration of the model is the CmpOperator enum of the source, and the case converters tried by the key
+   fallback are the seven the model indexes (regenerated from values.rs / eval_context.rs on every run) *)
+Theorem C01_operator_and_converter_tables :
+  map op_name all_ops = src_cmp_operators /\ (forall o, In o all_ops) /\
+  src_converters = ["camel"; "class"; "kebab"; "pascal"; "snake"; "title"; "train"]%string.
+Proof. exact (conj (proj1 cmp_operators_are_the_source_enum) (conj (proj2 cmp_operators_are_the_source_enum) converters_are_the_seven_of_the_source)). Qed.
+Print Assumptions C01_operator_and_converter_tables.
